@@ -315,8 +315,8 @@ def _counter_event(ev):
     return None
 
 
-def rule_r2(chk, db, cfgname, tab):
-    chk.rule('C06.R2', 'one logical ID-offset computation uses one snapshot of Impl::meshIDCounter_: a function takes '
+def rule_r2(chk, db, cfgname, tab, rid='C06.R2'):
+    chk.rule(rid, 'one logical ID-offset computation uses one snapshot of Impl::meshIDCounter_: a function takes '
              'at most one snapshot (a plain load, or a call to a helper that returns one) and, if it takes one, calls '
              'no other function that takes its own')
     direct = {}        # fn key -> [(kind, line)]
@@ -377,12 +377,12 @@ def rule_r2(chk, db, cfgname, tab):
         chk.obligation(ok, {'function': fn['name'], 'snapshots taken at lines': own,
                             'callees taking their own snapshot': nested})
         if not ok:
-            chk.violation('C06.R2', fn, 'meshIDCounter_ snapshots %d+%d' % (len(own), len(nested)),
+            chk.violation(rid, fn, 'meshIDCounter_ snapshots %d+%d' % (len(own), len(nested)),
                           'the global mesh-ID counter is sampled more than once for one ID-offset computation '
                           '(lines %s; callees with their own snapshot: %s): another thread reserving IDs in '
                           'between makes triangle IDs and relation keys disagree' % (own, nested),
                           line=own[0], cfg=cfgname)
-    chk.count('c06.r2.counter_accesses', n)
+    chk.count(rid.lower() + '.counter_accesses', n)
 
 
 def rule_r5(chk, db, cfgname, tab):
